@@ -71,7 +71,7 @@ def jobs(tier, seed):
     for mode in ('encrypt', 'decrypt'):
         for klen in KINDS:
             npass = 1 if KINDS[klen][0] == 1 else 3
-            for sh in shapes:
+            for sh in (shapes + (['N1', '1N'] if (tier == 'quick' and klen == 8) else [])):          # quick: the two mixed broadcasting shapes for 8-byte keys
                 for d in range(npass):
                     if tier == 'thorough':
                         for chunk in range(0, 16, 4):
